@@ -266,7 +266,7 @@ def write_replay(prop, v, seed):
             'expected': v['expected'], 'detail': v['detail'],
             'how': f'./check {prop} --replay <this file>   (runs only this case, no explorer)'}
     sha = hashlib.sha1(json.dumps([v['key'], v['case']], sort_keys=True).encode()).hexdigest()[:12]
-    d = os.path.join(VERIF, 'replays', prop)
+    d = os.path.join(os.environ.get('VERIF_OUT', VERIF), 'replays', prop)
     os.makedirs(d, exist_ok=True)
     path = os.path.join(d, f'{sha}.json')
     with open(path, 'w') as fh:
